@@ -110,7 +110,7 @@ theorem exec_callExpr {G : GCtx} (ok : G.OK) (fuel : Nat) (hcs : ∀ k, k < fuel
                 rw [hf, hname]
                 rfl
               rw [hkk] at hseq
-              have := (hA f (Nat.lt_succ_self _)).call (hcs f (Nat.lt_succ_self _)) pj hpj st s vs
+              have := (hA f (Nat.lt_succ_self _)).call (fun k hk => hcs k (Nat.lt_succ_of_le hk)) pj hpj st s vs
                 gs code gs' i a b mem hev hseq hat hrs hsz hnl hci
               rw [hcu] at this
               obtain ⟨c, hst, hex⟩ := this
@@ -141,10 +141,10 @@ theorem exec_callExpr {G : GCtx} (ok : G.OK) (fuel : Nat) (hcs : ∀ k, k < fuel
                   rw [hf, hname]
                   rfl
                 rw [hkk] at hseq
-                have := (hA f (Nat.lt_succ_self _)).call (hcs f (Nat.lt_succ_self _)) pj hpj st s vs
+                have := (hA f (Nat.lt_succ_self _)).call (fun k hk => hcs k (Nat.lt_succ_of_le hk)) pj hpj st s vs
                   gs code gs' i a b mem hev hseq hat hrs hsz hnl hci
                 rw [hcu] at this
-                obtain ⟨a', b', mem', hst, rep', hres', _⟩ := this
+                obtain ⟨a', b', mem', hst, rep', hres'⟩ := this
                 have := hres' hf w rfl
                 subst this
                 rw [hs.2.2.2.1] at hst
@@ -475,7 +475,7 @@ theorem execS_callStmt {G : GCtx} (ok : G.OK) (fuel : Nat) (hcs : ∀ k, k < fue
             | undef w => trivial
             | exit cd s' =>
               simp only
-              have := (hA f (Nat.lt_succ_self _)).call (hcs f (Nat.lt_succ_self _)) pj hpj st s vs
+              have := (hA f (Nat.lt_succ_self _)).call (fun k hk => hcs k (Nat.lt_succ_of_le hk)) pj hpj st s vs
                 gs code gs' i a b mem hev hgen hat hrs hsz hnl hci
               rw [hcu] at this
               obtain ⟨c, hst, hex⟩ := this
@@ -483,10 +483,10 @@ theorem execS_callStmt {G : GCtx} (ok : G.OK) (fuel : Nat) (hcs : ∀ k, k < fue
               exact ⟨c, hst, hex⟩
             | ok r s' =>
               simp only
-              have := (hA f (Nat.lt_succ_self _)).call (hcs f (Nat.lt_succ_self _)) pj hpj st s vs
+              have := (hA f (Nat.lt_succ_self _)).call (fun k hk => hcs k (Nat.lt_succ_of_le hk)) pj hpj st s vs
                 gs code gs' i a b mem hev hgen hat hrs hsz hnl hci
               rw [hcu] at this
-              obtain ⟨a', b', mem', hst, rep', _, _⟩ := this
+              obtain ⟨a', b', mem', hst, rep', _⟩ := this
               rw [hs.2.2.2.1] at hst
               exact ⟨a', b', mem', hst, rep'⟩
 
